@@ -80,6 +80,11 @@ def build(case):
     if dlm in ("COMMA", "TAB"):
         for ln in a["lines"]:
             ln["seps"] = ["," if dlm == "COMMA" else "\t"] * max(0, len(ln["toks"]) - 1)
+    if case.get("ctrlz") and not case.get("after"):
+        # a DOS end-of-file marker right after the last value of the file (no line break before it)
+        rows_ = [ln for ln in a["lines"] if ln["t"] == "row"]
+        if rows_:
+            rows_[-1]["trail"] = "\x1a"
     if case.get("runon"):
         # FORTRAN-style fixed-width columns: a wide negative value runs into the value before it (100.50-110.50); the
         # file is read with accept_regexp_sub_recommendations=False, the documented switch for this kind of file
@@ -94,6 +99,8 @@ def build(case):
             ln = {"t": "comment", "text": "   # not a row: 1 2 3 4 5 6 7 8 9 10 11 12 13"}
         elif kind == "t":
             ln = {"t": "comment", "text": "\t#1 2"}
+        elif kind == "w":
+            ln = {"t": "comment", "text": "#" + " ".join(["logged"] * max(1, c))}  # exactly as many words as there are columns
         a["lines"].insert(min(pos, len(a["lines"])), ln)
     from vlib import strategies as S_
     return S_.apply_scaffold(spec, case.get("scaffold"))
@@ -126,6 +133,11 @@ def oracle(case):
     if mc != "upper":
         out.cls("mnemonic_case-" + mc)
     kw = {}
+    if case.get("null_policy"):
+        kw["null_policy"] = case["null_policy"]  # no cell of these files is a null marker of any policy
+        out.cls("null_policy-" + case["null_policy"])
+    if case.get("ctrlz"):
+        out.cls("ctrl-z-after-last-value")
     if case.get("runon"):
         kw["accept_regexp_sub_recommendations"] = False
         out.cls("run-on-negatives")
@@ -175,6 +187,9 @@ def grid(tier):
                                 yield dict(d=d, c=c, r=r, engine=engine, sign=sign, names="numeric")
                             if r <= 3:
                                 yield dict(d=d, c=c, r=r, engine=engine, sign=sign, index="text")
+                    for policy in ("all", "numbers-only"):
+                        yield dict(d=d, c=c, r=r, engine=engine, sign="pos", null_policy=policy, noise=[[r // 2, "w"]])
+                    yield dict(d=d, c=c, r=r, engine=engine, sign="pos", ctrlz=True)
                     if c >= 2:
                         yield dict(d=d, c=c, r=r, engine=engine, sign="pos", dlm="COMMA", empty_col=(d + r))
                     if c >= 3:
